@@ -142,20 +142,67 @@ def raw_trace(events, rank):
 # opening a TraceAnalysis object in both worlds
 # ---------------------------------------------------------------------------
 
+_RAWS = {}
+_OPEN = {"n": 0}
+
+
+def reset_registry():
+    _RAWS.clear()
+    _OPEN["n"] = 0
+
+
+class _InProcPool:
+    """mp.Pool stand-in: map returns results in input order (the documented contract)."""
+
+    def __init__(self, n=None):
+        self.n = n
+
+    def __enter__(self):
+        return self
+
+    def __exit__(self, *a):
+        return False
+
+    def map(self, f, items, chunksize=None):
+        return [f(x) for x in items]
+
+    def close(self):
+        pass
+
+    def join(self):
+        pass
+
+
+class _FakeMP:
+    @staticmethod
+    def get_context(kind=None):
+        return _FakeMP
+
+    Pool = _InProcPool
+
+    @staticmethod
+    def cpu_count():
+        return 16
+
+
 def open_symbolic(mods, ranks_events, include_last_profiler_step=False, load=True, use_multiprocessing=False):
     """TraceAnalysis over the (symbolic) raw dicts, through the real Trace.load_traces."""
     trace_mod = mods["hta.common.trace"]
     ta_mod = mods["hta.trace_analysis"]
-    raws = {f"{SYM_DIR}/rank{r}.json": raw_trace(copy.deepcopy(ev), r) for r, ev in ranks_events.items()}
-    files = {r: f"{SYM_DIR}/rank{r}.json" for r in ranks_events}
+    _OPEN["n"] += 1
+    d = f"{SYM_DIR}/{_OPEN['n']}"
+    for r, ev in ranks_events.items():
+        _RAWS[f"{d}/rank{r}.json"] = raw_trace(copy.deepcopy(ev), r)
+    files = {r: f"{d}/rank{r}.json" for r in ranks_events}
 
     def fake_parse_trace_dict(path):
-        return copy.deepcopy(raws[path])
+        return copy.deepcopy(_RAWS[path])
 
     mods["hta.common.trace_parser"].parse_trace_dict = fake_parse_trace_dict
     trace_mod.parse_trace_dict = fake_parse_trace_dict
     trace_mod.Trace._validate_trace_files = lambda self: True
-    t = trace_mod.Trace(trace_files=dict(files), trace_dir=SYM_DIR)
+    trace_mod.mp = _FakeMP
+    t = trace_mod.Trace(trace_files=dict(files), trace_dir=d)
     if load:
         t.load_traces(include_last_profiler_step, use_multiprocessing=use_multiprocessing)
     ta = ta_mod.TraceAnalysis.__new__(ta_mod.TraceAnalysis)
